@@ -25,11 +25,11 @@ BUDGET = {"quick": 240, "thorough": 3000}
 KF_SIG = "debtags.insert/new-tag/multichar-name"
 
 PK = ["a", "b", "pp", "qr"]
-TAGSETS = [(), ("t",), ("t", "u::x"), ("u::y", "v"), ("a",)]
+TAGSETS = [(), ("t",), ("t", "u::x"), ("u::y", "v", "ww::z"), ("a",)]
 FILES = [
     [],
     ["a: t, u::x\n", "b: t\n", "pp\n"],
-    ["pp, qr: u::x, u::y\n", "a: v\n"],
+    ["pp, qr: u::x, u::y\n", "a: v, ww::z\n"],
     ["a, b, pp: t\n", "qr:\n"],
     ["a: t, u::x, u::y, v\n"],
     ["b: u::x\n", "qr: u::x, t\n", "a\n"],
